@@ -55,7 +55,7 @@ CONSTANTS
   NF = %d
   Modes = {0, 1}
   Full = %s
-INVARIANTS CountMatches RootsMatchNaive ProofsMatchNaive MemberSound SupplementSound
+INVARIANTS CountMatches RootsMatchNaive ProofsMatchNaive MemberSound SupplementSound HistorySound
 CHECK_DEADLOCK FALSE
 `, maxH, maxAdd, maxLeaves, minInit, maxInit, nfModel, map[bool]string{true: "TRUE", false: "FALSE"}[full])
 }
